@@ -51,12 +51,12 @@ class Ctx:
     def remaining(self):
         return max(0.0, self.budget_s - (time.time() - self.t0))
 
-    def map(self, fname, tasks, budget_s=None, per_task_timeout=900.0, force=False):
+    def map(self, fname, tasks, budget_s=None, per_task_timeout=900.0, force=False, min_tasks=0):
         """Run module.<fname>(task) for each task on the pool.  Returns list of (task, res) for
         tasks that ran and succeeded; harness errors are collected separately."""
         tasks = list(tasks)
         b = self.remaining() if budget_s is None else (budget_s if force else min(budget_s, self.remaining()))
-        results, skipped = proc.run_tasks(self.pool, self.module, fname, tasks, b, per_task_timeout)
+        results, skipped = proc.run_tasks(self.pool, self.module, fname, tasks, b, per_task_timeout, min_tasks=min_tasks)
         out = []
         for i in sorted(results):
             r = results[i]
@@ -145,6 +145,21 @@ def run_check(prop, tier, seed):
     finally:
         pool.shutdown(wait=False, cancel_futures=True)
     violations = res.get("violations", [])
+    # regression replays: minimised failing executions of defects that were repaired ("fixed:" entries
+    # suppress nothing - if one of them fails again it is reported like any other violation)
+    reg_dir = os.path.join(paths.VERIF, "regressions")
+    reg_run = 0
+    if os.path.isdir(reg_dir):
+        for f in sorted(os.listdir(reg_dir)):
+            if f.startswith(prop + "-") and f.endswith(".json"):
+                reg_run += 1
+                ok, out = replay_in_fresh_process(os.path.join(reg_dir, f))
+                if ok:
+                    with open(os.path.join(reg_dir, f), encoding="utf-8") as fh:
+                        rec = json.load(fh)
+                    rec["signature"] = dict(rec.get("signature") or {}, regression=f)
+                    violations.append(rec)
+    res["coverage"]["regression_replays_run"] = reg_run
     known = load_known()
     if os.path.isdir(paths.REPLAYS):
         for f in os.listdir(paths.REPLAYS):   # replay files belong to the run that wrote them
@@ -192,6 +207,9 @@ def run_check(prop, tier, seed):
         print("HARNESS-ERROR: %d alarm(s) did not reproduce on replay; see evidence" % len(unreproduced))
         return 2
     total = cov.get("evaluations", 0)
+    if not total:
+        print("HARNESS-ERROR: the check evaluated nothing (budget exhausted before any scenario ran?)")
+        return 2
     if ctx.harness_errors and (total == 0 or len(ctx.harness_errors) > max(2, getattr(ctx, "tasks_run", 0) // 100)):
         print("HARNESS-ERROR: %d harness errors (first: %s)" % (len(ctx.harness_errors), ctx.harness_errors[0]["error"][-600:]))
         return 2
